@@ -74,6 +74,35 @@ def write_replay(pid: str, beh: Any, v: Dict[str, Any]) -> str:
     return path
 
 
+def stratified(traces: List[List[Dict[str, Any]]], n: int, seed: int) -> List[List[Dict[str, Any]]]:
+    """Deterministic sample of n behaviours that spreads over (request kind, entry, targets, flags, scenario)."""
+    import random
+
+    if len(traces) <= n:
+        return list(traces)
+    rng = random.Random(seed)
+    groups: Dict[str, List[List[Dict[str, Any]]]] = {}
+    for t in traces:
+        last = t[-1]
+        key = json.dumps([last["a"], last.get("en"), last.get("t"), last.get("g"), last.get("sep"), last.get("destr"),
+                          last.get("n"), last.get("final")])
+        groups.setdefault(key, []).append(t)
+    keys = sorted(groups)
+    rng.shuffle(keys)
+    for k in keys:
+        rng.shuffle(groups[k])
+    out: List[List[Dict[str, Any]]] = []
+    while len(out) < n:
+        progressed = False
+        for k in keys:
+            if groups[k] and len(out) < n:
+                out.append(groups[k].pop())
+                progressed = True
+        if not progressed:
+            break
+    return out
+
+
 def run_replay_check(pid: str, tier: str, seed: int) -> int:
     t0 = time.time()
     plan = REPLAY_PLANS[pid]
@@ -105,6 +134,24 @@ def run_replay_check(pid: str, tier: str, seed: int) -> int:
         behaviours.extend(tr)
         sim_states += st["states"]
         gen_desc.append(f"{g['u']} x{len(tr)} depth {g['depth']} {g.get('fam', 'Fam_All')} {g.get('next', 'NextSim')}")
+    # ---- 2b. scripted cover: on prepared superposition / layout / entanglement scenarios TLC enumerates
+    #          EVERY request of the focus families; a stratified sample of them is replayed
+    cover_total = 0
+    for k, g in enumerate(plan.get("cover", {}).get(tier, [])):
+        cfg = configs.make_cfg(f"{pid}_{tier}_cover{k}.cfg", g["u"], g.get("depth", 1), False, families=g.get("fam", "Fam_All"),
+                               ops=g.get("ops", "All"), init=g.get("init", g["u"] + "_ExInit"), overrides=g.get("over"),
+                               scripts=g["scripts"], focus=g["focus"], cover=True)
+        rc, out = tlcrun.tlc("MC", cfg, ["-workers", "8"], timeout=2400)
+        err = tlcrun.failed(out)
+        if err:
+            print(out[-2000:])
+            raise Machinery(f"scripted cover generation failed: {err}")
+        tr = tlcrun.parse_traces(out)
+        cover_total += len(tr)
+        picked = stratified(tr, g["sample"], seed + k)
+        behaviours.extend(picked)
+        gen_desc.append(f"cover {g['u']} scripts {g['scripts']} focus {g['focus']}: {len(tr)} complete behaviours enumerated, "
+                        f"{len(picked)} replayed")
     if len(behaviours) < 4:
         raise Machinery(f"only {len(behaviours)} behaviours were generated")
     # ---- 3. replay into the real library
@@ -173,7 +220,7 @@ def run_replay_check(pid: str, tier: str, seed: int) -> int:
         print(f"  {v['kind']} at step {v['step']} {v['a']}/{v['en']} g={v['g']} cell={v['cell']} flags={v['flags']}: {v['detail']}")
     relevant_cells = sorted(c for c in cells if c.split("/")[0] in plan["actions"])
     evidence = {
-        "property_id": pid, "tier": tier, "seed": seed, "level": "model_checking",
+        "property_id": pid, "tier": tier, "seed": seed, "level": plan.get("level", "model_checking"),
         "coverage": {
             "states": ex_total["distinct"], "transitions": ex_total["generated"],
             "traces_validated_against_impl": len(behaviours),
@@ -181,6 +228,7 @@ def run_replay_check(pid: str, tier: str, seed: int) -> int:
             "exhaustive": False,
             "spec_exhaustive_runs": ex_desc, "spec_depth": ex_total["depth"],
             "behaviours_generated": gen_desc, "simulation_states": sim_states,
+            "scripted_cover_behaviours_enumerated": cover_total,
             "behaviours_replayed_to_the_end": completed,
             "behaviours_stopped_at_known_finding": sum(known.values()),
             "behaviours_stopped_by_other_property": other_prop,
@@ -245,6 +293,19 @@ def run_trace_check(pid: str, tier: str, seed: int) -> int:
         tr, st = tlcrun.simulate("MC", cfg, num=g["num"], depth=g["depth"], seed=seed * 97 + k, procs=8)
         behaviours.extend(tr)
         gen_desc.append(f"{g['u']} x{len(tr)} depth {g['depth']} {g.get('fam', 'Fam_All')}")
+    for k, g in enumerate(plan.get("cover", {}).get(tier, [])):
+        cfg = configs.make_cfg(f"{pid}_{tier}_cover{k}.cfg", g["u"], g.get("depth", 1), False, families=g.get("fam", "Fam_All"),
+                               ops=g.get("ops", "All"), init=g.get("init", g["u"] + "_ExInit"), overrides=g.get("over"),
+                               scripts=g["scripts"], focus=g["focus"], cover=True)
+        rc, out = tlcrun.tlc("MC", cfg, ["-workers", "8"], timeout=2400)
+        err = tlcrun.failed(out)
+        if err:
+            print(out[-2000:])
+            raise Machinery(f"scripted cover generation failed: {err}")
+        tr = tlcrun.parse_traces(out)
+        picked = stratified(tr, g["sample"], seed + k)
+        behaviours.extend(picked)
+        gen_desc.append(f"cover {g['u']} scripts {g['scripts']} focus {g['focus']}: {len(tr)} enumerated, {len(picked)} replayed")
     results = pool.replay_all(behaviours, procs=10, trace_dir=trace_dir) if behaviours else []
     herr = [r for r in results if r.get("harness_error")]
     if herr:
